@@ -3,6 +3,7 @@ from __future__ import annotations
 
 from typing import TYPE_CHECKING
 
+from bqskit.ir.gates.measure import MeasurementPlaceholder
 from bqskit.ir.lang.language import LangException
 from bqskit.ir.lang.language import Language
 from bqskit.ir.lang.qasm2.parser import parse
@@ -22,8 +23,15 @@ class OPENQASM2Language(Language):
 
         source = "OPENQASM 2.0;\ninclude \"qelib1.inc\";\n"
         source += f'qreg q[{circuit.num_qudits}];\n'
+        cregs: dict[str, int] = {}
         for gate in circuit.gate_set:
-            source += gate.get_qasm_gate_def()
+            if isinstance(gate, MeasurementPlaceholder):
+                # Every measurement lists all classical registers.
+                cregs.update(dict(gate.classical_regs))
+            else:
+                source += gate.get_qasm_gate_def()
+        for name, size in cregs.items():
+            source += f'creg {name}[{size}];\n'
 
         for op in circuit:
             source += op.get_qasm()
